@@ -242,10 +242,13 @@ structure Variant where
   kwMHA : Bool := false
   /-- D6 repaired: the fixed InstanceNorm does not keep the running-statistics buffers -/
   inDropBuffers : Bool := false
+  /-- repaired (fix f277a95): `fix` puts every replacement in the mode (train / eval) of the layer it replaces
+  (`new_sub_module.train(sub_module.training)`); as coded a replacement is a freshly constructed, training-mode layer -/
+  keepMode : Bool := false
   deriving DecidableEq, Repr
 
 def asCoded : Variant := {}
-def repaired : Variant := ⟨true, true, true, true, true⟩
+def repaired : Variant := ⟨true, true, true, true, true, true⟩
 
 /-! ## Validation -/
 
@@ -530,6 +533,17 @@ def fixer (v : Variant) (kw : Kw) (g : Nat) (m : Tree) : Except Exc Tree :=
   else if m.info.ty = .mha then fixMHA v kw g m
   else .ok m
 
+/-- `module.train(mode)` below a module: the flag of every descendant -/
+def Forest.setMode (b : Bool) : Forest → Forest
+  | .nil => .nil
+  | .cons i k r => .cons { i with training := b } (k.setMode b) (r.setMode b)
+
+/-- `module.train(mode)`: the flag of the module and of everything below it -/
+def setMode (b : Bool) (t : Tree) : Tree := ⟨{ t.info with training := b }, t.kids.setMode b⟩
+
+/-- the replacement as `fix` installs it -/
+def installed (v : Variant) (old r : Tree) : Tree := if v.keepMode then setMode old.info.training r else r
+
 /-- the loop of `ModuleValidator.fix` over the names collected beforehand; `g` counts the steps -/
 def fixLoop (v : Variant) (kw : Kw) : List Path → Tree → Nat → Except Exc Tree
   | [], t, _ => .ok t
@@ -541,7 +555,7 @@ def fixLoop (v : Variant) (kw : Kw) : List Path → Tree → Nat → Except Exc 
         match fixer v kw g m with
         | .error e => .error e
         | .ok r =>
-          match replaceSub t p r with
+          match replaceSub t p (installed v m r) with
           | none => .error .keyError
           | some t' => fixLoop v kw ps t' (g + 1)
       else fixLoop v kw ps t (g + 1)
